@@ -36,6 +36,7 @@ func violatingTable() []violating {
 		s("in=(男/女)", "x"), s("in=('好,的'/是)", "否"), s("include=(测试)", "abc"), s("prefix=测试", "abc"), s("suffix=验证", "abc测试"), s("to=1~2", "测试测"), s("phone", "手机号"),
 		s("ints=、", "1,2"), s("date='年'", "1996-01-01"), s("eq=2", "长度一"),
 		// long values (limits inside individual rules must not swallow the message)
+		s("json", "{"+strings.Repeat("\\", 200)), s("json", "{"+strings.Repeat("'", 130)), s("json", "{"+strings.Repeat("\\", 127)), s("json", "{"+strings.Repeat("x\t", 100)), s("json", "{"+strings.Repeat("'", 255)),
 		s("json", "{"+strings.Repeat("a", 300)), s("json", strings.Repeat("[", 257)), s("json", "{\"k\":"+strings.Repeat("1", 1000)), s("to=1~2", strings.Repeat("a", 300)), s("phone", strings.Repeat("1", 300)),
 		s("email", strings.Repeat("a", 300)), s("in=(a/b)", strings.Repeat("ab", 200)), s("prefix=zz", strings.Repeat("y", 1000)), s("unique", strings.Repeat("a,", 300)), s("ints", strings.Repeat("1,", 300)+"x"),
 		s("date", strings.Repeat("1996-01-01", 30)), s("ip", strings.Repeat("1.", 200)), s("idcard", strings.Repeat("1", 257)),
